@@ -478,3 +478,104 @@ def truthiness_of_optional_lookup(ctx, funcs: Iterable[FunctionInfo]) -> List[Tu
                     out.append((f, n, f"`{t.id}` = `{ast.unparse(d.value)[:50]}` is tested by truthiness at line {n.lineno}: a present but falsy "
                                       f"value is treated as absent", d.value))
     return out
+
+
+_ORDER_FREE_CONSUMERS = ("len", "any", "all", "sum", "min", "max", "sorted", "set", "frozenset", "bool", "isinstance")
+
+
+def _is_set_ctor(e) -> bool:
+    if isinstance(e, (ast.Set, ast.SetComp)):
+        return True
+    if isinstance(e, ast.Call) and isinstance(e.func, ast.Name) and e.func.id in ("set", "frozenset"):
+        return True
+    if isinstance(e, ast.BinOp) and isinstance(e.op, (ast.BitOr, ast.BitAnd, ast.Sub, ast.BitXor)) and (_is_set_ctor(e.left) or _is_set_ctor(e.right)):
+        return True
+    return False
+
+
+def set_order_dependence(ctx, funcs: Iterable[FunctionInfo]) -> List[Tuple[FunctionInfo, ast.AST, str]]:
+    """An ORDERED result built from the iteration order of a set: `for x in S` whose body appends to a list / concatenates a string
+    / numbers the elements, `list(S)` / `tuple(S)` / `enumerate(S)` / `zip(S, ..)` / `sep.join(S)`, where S is a set display, a
+    `set(...)` / `frozenset(...)` call, a set comprehension, a set-algebra expression, or a local whose every reaching definition is
+    one.  The order of a set of strings differs from process to process (hash randomisation) and never is the insertion order.
+    Silent when the set goes through `sorted(...)` or an order-free consumer (len/any/all/sum/min/max/set), or when the loop body
+    only performs membership-style updates (dict/set stores, `.pop`, `.discard`)."""
+    out = []
+    for f in funcs:
+        rd = None
+
+        def is_set(e):
+            nonlocal rd
+            if _is_set_ctor(e):
+                return True
+            if isinstance(e, ast.Name) and not _bound_by_inner_scope(e, f.node):
+                if rd is None:
+                    rd = ctx.rd(f)
+                if stmt_of(ctx.cfg(f), e) is None:
+                    return False
+                defs = rd.defs_reaching(e)
+                if not defs:
+                    return False
+                from engine.dataflow import assigned_value
+                vals = [assigned_value(d, e.id) if isinstance(d, ast.stmt) else None for d in defs]
+                return all(v is not None and _is_set_ctor(v) for v in vals)
+            return False
+        for n in walk_shallow(f.node):
+            why = None
+            if isinstance(n, ast.For) and is_set(n.iter):
+                ordered = None
+                for b in n.body:
+                    for w in ast.walk(b):
+                        if isinstance(w, ast.Call) and isinstance(w.func, ast.Attribute) and w.func.attr in ("append", "extend", "insert") \
+                                and isinstance(w.func.value, ast.Name):
+                            ordered = w
+                        if isinstance(w, ast.AugAssign) and isinstance(w.op, ast.Add) and isinstance(w.target, ast.Name) \
+                                and isinstance(w.value, (ast.JoinedStr, ast.List, ast.Constant)) and not isinstance(getattr(w.value, "value", None), (int, float)):
+                            ordered = w
+                if ordered is not None:
+                    why = (f"`{norm(n)[:50]}` iterates a set and `{norm(ordered)[:50]}` builds an ordered result from it")
+            elif isinstance(n, ast.Call) and n.args and is_set(n.args[0]):
+                cn = call_name(n)
+                par = parent(n)
+                consumer = call_name(par) if isinstance(par, ast.Call) else None
+                if isinstance(n.func, ast.Name) and cn in ("list", "tuple", "enumerate", "zip") and consumer not in _ORDER_FREE_CONSUMERS:
+                    why = f"`{ast.unparse(n)[:60]}` fixes the arbitrary iteration order of a set into a sequence"
+                elif isinstance(n.func, ast.Attribute) and cn == "join" and isinstance(n.func.value, (ast.Constant, ast.Name)):
+                    why = f"`{ast.unparse(n)[:60]}` joins the elements of a set in its arbitrary iteration order"
+            if why:
+                out.append((f, n, why + ": the order of a set (of strings: per process, hash randomisation) is not the insertion order"))
+    return out
+
+
+def deepcopy_shared_memo(ctx, funcs: Iterable[FunctionInfo]) -> List[Tuple[FunctionInfo, ast.AST, str]]:
+    """`copy.deepcopy(x, memo)` inside a loop with a memo dictionary that is NOT re-created in every iteration: deepcopy returns the
+    copy it made before for every object it meets again, so the copies of different iterations share all the objects their sources
+    have in common - a write through one copy shows up in the others.  (Inside `__deepcopy__(self, memo)` passing the received memo
+    on is the protocol and is not reported.)"""
+    out = []
+    for f in funcs:
+        if f.name == "__deepcopy__":
+            continue
+        rd = None
+        for c in walk_shallow(f.node):
+            if not (isinstance(c, ast.Call) and call_name(c) == "deepcopy"):
+                continue
+            memo = c.args[1] if len(c.args) >= 2 else next((k.value for k in c.keywords if k.arg == "memo"), None)
+            if not isinstance(memo, ast.Name):
+                continue
+            loops = [a for a in _ancestors(c) if isinstance(a, (ast.For, ast.While) + _COMP)]
+            if not loops:
+                continue
+            if rd is None:
+                rd = ctx.rd(f)
+            if stmt_of(ctx.cfg(f), memo) is None:
+                continue
+            defs = rd.defs_reaching(memo)
+            inner = loops[0]
+            if isinstance(inner, _COMP) and defs:
+                out.append((f, c, f"`{ast.unparse(c)[:70]}` runs for every element of `{ast.unparse(inner)[:40]}` with one memo `{memo.id}`: an object "
+                                  f"that two elements have in common is copied once and shared by both results"))
+            elif defs and all(isinstance(d, ast.stmt) and not contains(inner, d) for d in defs):
+                out.append((f, c, f"`{ast.unparse(c)[:70]}` runs in the loop `{norm(inner)[:40]}` with the memo `{memo.id}` created outside it: an object "
+                                  f"that two iterations' sources have in common is copied once and shared by both results"))
+    return out
